@@ -79,7 +79,7 @@ func sameLen(a, b ssa.Value) bool {
 }
 
 var coverExceptions = map[string]string{
-	"jlib.keysMap:loop#1": "results is made with v.Len() elements and the loop ranges over v.MapKeys(), which has exactly v.Len() entries (reflect contract)",
+	"jlib.keysMap:loop#1":  "results is made with v.Len() elements and the loop ranges over v.MapKeys(), which has exactly v.Len() entries (reflect contract)",
 	"jlib.Append$1:loop#1": "appendSlice(vs, length) is only called as appendSlice(v1, len1) and appendSlice(v2, len2) with lenN = vN.Len() computed just before (the same pairing IDX relies on)",
 	"jlib.Reduce:loop#1":   "without an initial value the first member seeds the accumulator and the fold starts at the second: i is 0 or 1 accordingly",
 	"jlib.Zip:loop#2":      "$zip pairs members up to the shortest argument: the bound is the minimum of the argument lengths computed by the first loop",
@@ -89,6 +89,8 @@ var coverExceptions = map[string]string{
 func runCOVER(c *Ctx, r *Result, rule string, fns []*ssa.Function, descendingOK map[string]bool) int {
 	bndCtx = c
 	n := 0
+	from := len(r.Obls)
+	defer func() { resolvePending(c, r, from, coverExceptions, nil, nil, fns, true) }()
 	for _, f := range fns {
 		for li, l := range findLoops(f) {
 			// counted variable(s)
@@ -155,10 +157,8 @@ func runCOVER(c *Ctx, r *Result, rule string, fns []*ssa.Function, descendingOK 
 			switch {
 			case bad == "":
 				o.Verdict, o.Reason = Discharged, fmt.Sprintf("%s traversal of the whole container: starts at the %s member, steps by one, bounded by the container's own length (%d indexed reads)", dir, map[string]string{"ascending": "first", "descending": "last"}[dir], len(travs))
-			case coverExceptions[key] != "":
-				o.Verdict, o.Reason = Exception, "reviewed: "+coverExceptions[key]
 			default:
-				o.Verdict, o.Reason = Finding, "partial or irregular traversal: "+bad
+				o.Verdict, o.Reason = pendingExc, "partial or irregular traversal: "+bad
 			}
 			r.Add(o)
 		}
